@@ -61,6 +61,35 @@ def size_route(route, v, kind=None):
     raise ValueError(route)
 
 
+LATE = 400.0   # a change point far beyond the time by which all lineages have coalesced (the invalid value is never reached by the process)
+
+
+def late_mig_route(route, v, only_events=False):
+    C = pg.Coalescent
+    n = {'a': 2, 'b': 1}
+    base = dict(pop_sizes={'a': 1.0, 'b': 1.0})
+    bad, good = {0: 0.5, LATE: v}, {0: 0.5}
+    ev = {'MMigrationRateChange': lambda: [pg.MigrationRateChange('a', 'b', 0.0, 0.5), pg.MigrationRateChange('b', 'a', 0.0, 0.5), pg.MigrationRateChange('a', 'b', LATE, v)],
+          'MMigrationRateChanges': lambda: [pg.MigrationRateChanges({('a', 'b'): bad, ('b', 'a'): good})],
+          'MSymmetric': lambda: [pg.SymmetricMigrationRateChanges(['a', 'b'], bad)],
+          'MDiscreteRateChanges': lambda: [pg.DiscreteRateChanges(migration_rates={('a', 'b'): bad, ('b', 'a'): good})]}
+    if route == 'MNestedDict':
+        return lambda: (C(n=n, demography=pg.Demography(**base, migration_rates={('a', 'b'): bad, ('b', 'a'): good})).tree_height.mean if not only_events
+                        else (pg.Demography(migration_rates={('a', 'b'): bad, ('b', 'a'): good}), None)[1])
+    if only_events:
+        return lambda: (ev[route](), None)[1]           # the event object alone must already refuse the value
+    return lambda: C(n=n, demography=pg.Demography(events=[pg.PopSizeChanges({'a': {0: 1}, 'b': {0: 1}})] + ev[route]())).tree_height.mean
+
+
+def late_size_route(route, v):
+    C = pg.Coalescent
+    if route == 'SNestedDict': return lambda: C(n=3, demography=pg.Demography(pop_sizes={'pop_0': {0: 1.0, LATE: v}})).tree_height.mean
+    if route == 'SPopSizeChange': return lambda: C(n=3, demography=pg.Demography(events=[pg.PopSizeChange('pop_0', LATE, v)])).tree_height.mean
+    if route == 'SPopSizeChanges': return lambda: C(n=3, demography=pg.Demography(events=[pg.PopSizeChanges({'pop_0': {0: 1.0, LATE: v}})])).tree_height.mean
+    if route == 'SDiscreteRateChanges': return lambda: C(n=3, demography=pg.Demography(events=[pg.DiscreteRateChanges(pop_sizes={'pop_0': {LATE: v}})])).tree_height.mean
+    raise ValueError(route)
+
+
 def mig_route(route, v):
     C = pg.Coalescent
     n = {'a': 2, 'b': 1}
@@ -108,7 +137,9 @@ def request(rq):
     if t == 'RCdfTime': return lambda: C(n=3).tree_height.cdf(np.array([rq[1], 1.0]))
     if t == 'RAccumulateTime': return lambda: C(n=3).tree_height.accumulate(1, [1.0, rq[1]])
     if t == 'RMomentEndTime': return lambda: C(n=3).tree_height.moment(1, end_time=rq[1])
+    if t == 'RPopSize' and len(rq) > 3 and rq[3] == 'late': return late_size_route(rq[1], rq[2])
     if t == 'RPopSize': return size_route(rq[1], rq[2], rq[3] if len(rq) > 3 else None)
+    if t == 'RMigrationRate' and len(rq) > 3: return late_mig_route(rq[1], rq[2], only_events=(rq[3] == 'late_object'))
     if t == 'RMigrationRate': return mig_route(rq[1], rq[2])
     if t == 'RBetaAlpha': return lambda: C(n=3, model=pg.BetaCoalescent(alpha=rq[1], scale_time=False)).tree_height.moment(1, end_time=2.0)
     if t == 'RDiracPsi': return lambda: C(n=3, model=pg.DiracCoalescent(psi=rq[1], c=1.0)).tree_height.moment(1, end_time=2.0)
